@@ -13,6 +13,8 @@ and emit nothing.
   N = P.parseFile(filename)                    EParseFile
   N = P.parse(s)                               EParse
   self.__dict__.pop("<name>", None)            EDropInst "<name>"
+  for X in ("<n1>", "<n2>", ...):              EDropInst "<n1>"; EDropInst "<n2>"; ...
+      self.__dict__.pop(X, None)
   Structure.__init__(self)                     EInitSelf
   if N is not None: <stmts>                    EGuardParsed <stmt> for each
   self.__dict__.update(N.__dict__)             EUpdateDict
@@ -153,6 +155,8 @@ class _Method:
             return self.if_stmt(st, guarded, in_with)
         if isinstance(st, ast.With):
             return self.with_stmt(st, guarded, in_with)
+        if isinstance(st, ast.For):
+            return self.for_stmt(st, guarded, in_with)
         self.refuse(st, "statement not understood: " + type(st).__name__)
 
     def assign(self, st, guarded, in_with):
@@ -287,6 +291,25 @@ class _Method:
                 return
             self.refuse(st, "space-group update block not understood")
         self.refuse(st, "condition not understood: " + ast.unparse(t)[:60])
+
+    def for_stmt(self, st, guarded, in_with):
+        """for X in ("a", "b"): self.__dict__.pop(X, None)   -- unrolled"""
+        if st.orelse or in_with or not isinstance(st.target, ast.Name) or not isinstance(st.iter, (ast.Tuple, ast.List)):
+            self.refuse(st, "loop not understood")
+        names = []
+        for e in st.iter.elts:
+            if not (isinstance(e, ast.Constant) and isinstance(e.value, str) and e.value.isidentifier()):
+                self.refuse(st, "loop over something else than attribute-name literals")
+            names.append(e.value)
+        ok = len(st.body) == 1 and isinstance(st.body[0], ast.Expr) and isinstance(st.body[0].value, ast.Call)
+        if ok:
+            c = st.body[0].value
+            ok = isinstance(c.func, ast.Attribute) and c.func.attr == "pop" and self.is_self_dict(c.func.value) and len(c.args) == 2 \
+                and not c.keywords and self.is_name(c.args[0], st.target.id) and self.is_none(c.args[1])
+        if not ok:
+            self.refuse(st, "loop body is not self.__dict__.pop(<loop variable>, None)")
+        for n in names:
+            self.emit('EDropInst "%s"' % n, guarded)
 
     def title_block(self, st):
         body = [b for b in st.body if not isinstance(b, (ast.Import, ast.ImportFrom))]
